@@ -3,6 +3,7 @@
 // half modes pick the nearer one (rational test 2r vs inc) and break ties as named; halfEven takes the even multiple.
 pub open spec fn sabs(x: int) -> int { if x < 0 { -x } else { x } }
 
+#[verifier::opaque]
 pub open spec fn round_spec(x: int, inc: int, mode: RoundingMode) -> int
     recommends inc > 0
 {
@@ -102,6 +103,7 @@ pub proof fn lemma_round_sign(x: int, d: int, mode: RoundingMode)
     requires d > 0,
     ensures round_spec(x, d, mode) == (if x >= 0 { unsigned_spec(x, d, um(mode, true)) * d } else { -(unsigned_spec(-x, d, um(mode, false)) * d) }),
 {
+    reveal(round_spec);
     vstd::arithmetic::div_mod::lemma_fundamental_div_mod(x, d);
     let q = x / d; let r = x % d;
     if x >= 0 {
@@ -132,6 +134,7 @@ pub proof fn lemma_round_adjacent(x: int, d: int, mode: RoundingMode)
         r % d == 0 && x - d < r < x + d && (x % d == 0 ==> r == x)
         && (r == (x / d) * d || r == (x / d) * d + d) }),
 {
+    reveal(round_spec);
     vstd::arithmetic::div_mod::lemma_fundamental_div_mod(x, d);
     let q = x / d;
     vstd::arithmetic::div_mod::lemma_mod_multiples_basic(q, d);
@@ -145,6 +148,7 @@ pub proof fn lemma_round_negate(x: int, d: int, mode: RoundingMode)
     requires d > 0,
     ensures round_spec(-x, d, negate_mode(mode)) == -round_spec(x, d, mode),
 {
+    reveal(round_spec);
     lemma_round_sign(x, d, mode);
     lemma_round_sign(-x, d, negate_mode(mode));
     if x == 0 {
